@@ -13,7 +13,8 @@ RULE = ("cases: (planar graph scaled to metres with extent <= 2 km, trace, emitt
         "distinct states on the path; distinct = case JSON")
 ASSUMPTIONS = ["local equirectangular placement: distortion <= ~3e-3 relative at 60 deg / 1 km (measured), tolerance 1e-2 relative + 1e-3 absolute "
                "on the log-probability", "emitting-only, no cut-offs, no width (as the statement says)"]
-TOLERANCES = {"logprob": "1e-2 relative + 1e-3 absolute"}
+TOLERANCES = {"logprob": "1e-2 relative + 1e-3 absolute + (distance family) propagated along-edge position noise of 0.1 m: "
+                         "sum over steps of (0.4 |d_o - d_s| + 0.04) / (2 dist_noise^2)"}
 BUDGET = {"quick": {"shards": 8, "examples": 400}, "thorough": {"shards": 16, "examples": 7000}}
 
 
@@ -71,10 +72,20 @@ def check_case(case, ctx):
     cl = base.canon(ml, sl, il)
     if cp["idx"] != cl["idx"] or cp["n_emit"] != cl["n_emit"]:
         raise Violation("index", f"planar run matches up to {cp['idx']} ({cp['n_emit']} observations), lat/lon run up to {cl['idx']} ({cl['n_emit']})")
+    # C14 accepts ~0.1 m of numerical noise in the lat/lon position *along* an edge (distances to the edge are accurate to 1e-6 m).
+    # A distance-based transition term -(d_o - d_s)^2 / (2 dist_noise^2) turns a position error delta into
+    # (4 delta |d_o - d_s| + 4 delta^2) / (2 dist_noise^2); that propagated noise is added to the tolerance, per step of the planar
+    # best path (nothing is added for the simple matchers, whose transition terms do not depend on positions).
+    extra = 0.0
+    if cfg["family"] == "distance" and mp.lattice_best:
+        dn = cfg.get("dist_noise", cfg["obs_noise"])
+        delta = 0.1
+        for m in mp.lattice_best[1:]:
+            extra += (4 * delta * abs(m.d_o - m.d_s) + 4 * delta * delta) / (2 * dn * dn)
     if cp["lp"] is not None:
-        err = abs(cp["lp"] - cl["lp"]) / (1e-3 + 1e-2 * abs(cp["lp"]))
+        err = abs(cp["lp"] - cl["lp"]) / (1e-3 + 1e-2 * abs(cp["lp"]) + extra)
         ctx.extra["max_tolerance_fraction_used"] = max(ctx.extra.get("max_tolerance_fraction_used", 0.0), err)
-    if cp["lp"] is not None and abs(cp["lp"] - cl["lp"]) > 1e-3 + 1e-2 * abs(cp["lp"]):
+    if cp["lp"] is not None and abs(cp["lp"] - cl["lp"]) > 1e-3 + 1e-2 * abs(cp["lp"]) + extra:
         raise Violation("probability", f"planar best log-probability {cp['lp']}, lat/lon {cl['lp']} (unit {unit} m at {org})")
     classes = ["family:" + cfg["family"], "lat-band:%d" % (10 * int(abs(org[0]) // 10)), "unit:%g" % unit]
     if cp["keys"] != cl["keys"]:
